@@ -11,7 +11,9 @@
 
    Steps: the wire models expose fuel, not a step counter; C02_walker_steps_partial bounds the
    steps of a step-counting skeleton of the recursive walkers for EVERY head parser that makes
-   progress — it is not instantiated per format (no per-format C02_F_steps).
+   progress; C02_msgpack_walker_steps instantiates it with the head parser of the msgpack skip
+   walker and proves that the instance computes the msgpack wire model's skip (the other formats
+   are not instantiated).
    json (C02_json_terminates, C02_only_recoverable_json, assembled in C02/JsonBridge.v from
    Wire/JsonTotal.v / JsonProofs.v / JsonLeaf.v): the same fuel, for every leaf implementation with a
    total string decoder and in particular for C09's string code (the leaf the Wjson correspondence runs).
@@ -22,6 +24,7 @@ From Verif Require Import Base.Outcome Wire.Item Gen.Consts.
 From Verif Require Wire.Cbor Wire.Msgpack Wire.Simple Wire.Binc Wire.Json.
 From Verif Require Import C02.Bridge C02.Alloc C02.AllocProofs C02.Steps C02.StepsProofs.
 From Verif Require Wire.JsonTotal Wire.JsonLeaf C02.JsonBridge.
+From Verif Require C02.StepsMsgpack.
 Import ListNotations.
 
 (* from Wcbor dec_total / skip_total (Wire/CborTotal.v); the walker from any entry depth d *)
@@ -185,6 +188,36 @@ Theorem C02_walker_steps_partial : forall (head : list N -> res shape) (is_break
   forall (f : nat) (d : Z) (b : list N), (snd (walk head is_break depth_ok f d b) <= 4 * length b + 2)%nat.
 Proof. exact steps_lemma. Qed.
 Print Assumptions C02_walker_steps_partial.
+
+(* the skeleton instantiated for msgpack: head parser = the descriptor switch of
+   nextValueBytesBdReadR as the wire model Wire/Msgpack.v has it (leaf: descriptor + payload / length
+   field + body; array of n: SSeq n; map of n pairs: SSeq (2n)), no break byte, depth policy
+   depthIncr (one more level iff depth + 1 < MaxDepth).  For EVERY option vector, entry depth and
+   input: (1) with fuel >= 2*dec_fuel b + 1 the instance returns exactly what the msgpack wire
+   model's skip returns (same rest of input or same error class) — the step-counted walker IS the
+   model's walker; (2) with ANY fuel it takes at most 4 * length b + 2 steps (one per call and per
+   loop iteration), whatever lengths the heads claim. *)
+Theorem C02_msgpack_walker_steps : forall (D : Msgpack.dopts) (d0 : Z) (b : list N),
+  (forall F, (2 * Msgpack.dec_fuel b + 1 <= F)%nat ->
+     fst (walk (StepsMsgpack.mp_head D) StepsMsgpack.mp_break (StepsMsgpack.mp_depth_ok D) F d0 b)
+       = Msgpack.skip_at D d0 (Msgpack.dec_fuel b) b) /\
+  (forall F, (snd (walk (StepsMsgpack.mp_head D) StepsMsgpack.mp_break (StepsMsgpack.mp_depth_ok D) F d0 b) <= 4 * length b + 2)%nat).
+Proof. exact StepsMsgpack.msgpack_walker_steps. Qed.
+Print Assumptions C02_msgpack_walker_steps.
+
+(* [[{1: [nil]}, "a"], 7...: 14 steps for 8 bytes, the model's outcome; an array32 head claiming
+   2^32-1 elements followed by two: 7 steps, then the end of input; MaxDepth 2 refuses the second
+   level after 3 steps; 4000 nested array heads stop at the depth bound after 2047 steps *)
+Example C02_msgpack_steps_nonvacuous :
+  let D := Msgpack.mkdopts true false false 0 in
+  let w := walk (StepsMsgpack.mp_head D) StepsMsgpack.mp_break (StepsMsgpack.mp_depth_ok D) in
+  w 40%nat 0%Z [146; 129; 1; 145; 192; 161; 97; 7]%N = (Ok [7%N], 14%nat) /\
+  Msgpack.skip_at D 0 (Msgpack.dec_fuel [146; 129; 1; 145; 192; 161; 97; 7]%N) [146; 129; 1; 145; 192; 161; 97; 7]%N = Ok [7%N] /\
+  w 40%nat 0%Z [221; 255; 255; 255; 255; 1; 2]%N = (Err EEof, 7%nat) /\
+  walk (StepsMsgpack.mp_head D) StepsMsgpack.mp_break (StepsMsgpack.mp_depth_ok (Msgpack.mkdopts true false false 2)) 40 0
+       [146; 129; 1; 145; 192; 161; 97; 7]%N = (Err EDepth, 3%nat) /\
+  snd (w (N.to_nat 9000%N) 0%Z (repeat 145%N (N.to_nat 4000%N))) = 2047%nat.
+Proof. vm_compute. repeat apply conj; reflexivity. Qed.
 
 (* ------------------------------ non-vacuity ------------------------------ *)
 (* a toy head: 0 = leaf, 255 = container until break (254), n = container of n values *)
